@@ -45,6 +45,8 @@ class Session:
         self.csrf: dict[str, str] = {}      # service → token harvested from pages the role may GET
         self.pk: int | None = None
         self.sources: dict[str, str] = {}
+        self.account: dict = {}             # the role's own account as its login JSON shows it
+        self.readable: dict[str, dict] = {}  # JSON of objects the role may GET: stream, other_stream, mps, key
 
 
 class World:
@@ -66,6 +68,7 @@ class World:
         self.snap = sqlite3.connect(":memory:")
         self.conn.backup(self.snap)
         self.base_db = self.db_fingerprint()
+        self.base_users = self.user_rows()
         self.blob_backup = self.a.scratch / "c15-blob-backup"
         if self.blob_backup.exists():
             shutil.rmtree(self.blob_backup)
@@ -126,6 +129,7 @@ class World:
             s.access = r.json["accessToken"]["jwt"]
             s.refresh = r.json["refreshToken"]["jwt"]
             s.pk = r.json["user"]["pk"]
+            s.account = dict(r.json["user"])
             ck = c.get_cookie("session")
             s.session_cookie = ck.value if ck else None
             s.sources["access"] = "POST /api/login"
@@ -137,6 +141,22 @@ class World:
                 s.sources[svc] = "GET /streams?ajax=1"
         ck = c.get_cookie("csrf")
         s.csrf_cookie = ck.value if ck else None
+        if role == "anonymous":
+            # the guest token's subject is readable by its holder
+            s.account = {"username": "_AnonymousUser_"}
+        # what the role can read about the objects: used to build full-form bodies
+        keys = r.json.get("keys") or []
+        if keys:
+            s.readable["key"] = {k: v for k, v in keys[0].items() if not isinstance(v, (dict, list))}
+        hdr = {"Authorization": f"Bearer {s.access}"}
+        for name, url in (("stream", f"/stream/{self.ids['spk']}?ajax=1"),
+                          ("other_stream", f"/stream/{self.ids['bbb_spk']}?ajax=1"),
+                          ("mps", f"/api/multi-period-streams/{self.ids['mps']}?ajax=1")):
+            rr = c.get(url, headers=hdr)
+            js = rr.json if rr.status_code == 200 and isinstance(rr.json, dict) else {}
+            if name == "mps":
+                js = js.get("model") or {}
+            s.readable[name] = {k: v for k, v in js.items() if not isinstance(v, (dict, list))}
         return s
 
     # ------------------------------------------------------------------ snapshot / fingerprints
@@ -177,6 +197,17 @@ class World:
                 h.update(b"\n")
             out[t] = h.hexdigest()
         return out
+
+    def user_rows(self) -> dict[int, str]:
+        """fingerprint of every User row on its own (for the 'own account only' clause)"""
+        out = {}
+        for row in self.conn.execute(f'select "pk", {self._cols("User")} from "User"'):
+            out[row[0]] = hashlib.sha256(repr(row[1:]).encode()).hexdigest()
+        return out
+
+    def changed_users(self) -> list[int]:
+        now = self.user_rows()
+        return sorted(pk for pk in set(now) | set(self.base_users) if now.get(pk) != self.base_users.get(pk))
 
     def blob_listing(self) -> list[tuple[str, int]]:
         out = []
